@@ -18,15 +18,50 @@ from hypergraph.runners import RunStatus
 _fn_counter = itertools.count()
 
 
+class _StepList(list):
+    def __init__(self):
+        super().__init__()
+        self.steps = []
+
+    def append(self, item):
+        super().append(item)
+        self.steps.append(STEP["n"])
+
+
+STEP = {"n": 0}
+
+
+def install_step_probe():
+    """Harness-side instrumentation (no repo hook): count supersteps by wrapping the runners' references to the superstep
+    functions, so that the call log can tell which node executions shared a superstep."""
+    import hypergraph.runners.async_.runner as ar
+    import hypergraph.runners.sync.runner as sr
+    if getattr(sr.run_superstep_sync, "__verif_probe__", False):
+        return
+    orig_s, orig_a = sr.run_superstep_sync, ar.run_superstep_async
+
+    def probe_s(*a, **k):
+        STEP["n"] += 1
+        return orig_s(*a, **k)
+
+    async def probe_a(*a, **k):
+        STEP["n"] += 1
+        return await orig_a(*a, **k)
+
+    probe_s.__verif_probe__ = probe_a.__verif_probe__ = True
+    sr.run_superstep_sync, ar.run_superstep_async = probe_s, probe_a
+
+
 class Log:
     """Call log shared by the node functions of one program instance."""
 
     def __init__(self):
-        self.calls = []  # (node_name, {param: value})
+        self.calls = _StepList()  # (node_name, {param: value}); .steps[i] = superstep counter when call i started
         self.decisions = []  # (position in calls, gate name, decision) in execution order
 
     def clear(self):
         self.calls.clear()
+        self.calls.steps.clear()
         self.decisions.clear()
 
     def decided(self, gate, decision):
